@@ -53,7 +53,29 @@ def normaliser(prog: Program, f: FuncInfo, inline_locals: bool = True, extra_env
         env.update(trivial_getter_env(prog, f.cls, f.self_name))
     if extra_env:
         env.update(extra_env)
-    return Normaliser(lambda d: prog.qualify(f.module, d), env, f.self_name, inliner=_make_inliner(prog, f, 0) if inline_helpers else None)
+    nrm = Normaliser(lambda d: prog.qualify(f.module, d), env, f.self_name, inliner=_make_inliner(prog, f, 0) if inline_helpers else None)
+    nrm.records = record_classes(prog)
+    return nrm
+
+
+def record_classes(prog: Program) -> dict[str, list[str]]:
+    """Repository classes that only bundle values (NamedTuple / dataclass without methods): qualified name -> field names in order."""
+    cached = prog.__dict__.get("_record_classes")
+    if cached is None:
+        cached = {}
+        for q, c in prog.classes.items():
+            bases = [ast.unparse(b).split(".")[-1] for b in c.node.bases]
+            deco = [ast.unparse(d.func if isinstance(d, ast.Call) else d).split(".")[-1] for d in c.node.decorator_list]
+            if "NamedTuple" not in bases and "dataclass" not in deco:
+                continue
+            if any(isinstance(st, (ast.FunctionDef, ast.AsyncFunctionDef)) for st in c.node.body):
+                continue
+            fields = [st.target.id for st in c.node.body if isinstance(st, ast.AnnAssign) and isinstance(st.target, ast.Name) and "ClassVar" not in ast.unparse(st.annotation)]
+            if fields:
+                cached[q] = fields
+                cached[q.replace(":", ".")] = fields
+        prog.__dict__["_record_classes"] = cached
+    return cached
 
 
 def straight_line_helper(g: FuncInfo) -> ast.expr | None:
@@ -133,6 +155,7 @@ def _make_inliner(prog: Program, f: FuncInfo, depth: int):
             local.update(trivial_getter_env(prog, g.cls, g.self_name))
         local.update(env)
         n2 = Normaliser(lambda d: prog.qualify(g.module, d), local, g.self_name, inliner=_make_inliner(prog, g, depth + 1))
+        n2.records = n.records
         n2.opaque = n.opaque
         return n2.rat(ret)
     return inline
